@@ -138,7 +138,14 @@ def run_three_way(ops, tag, jobs=None, want_spec=True, want_impl=True, timeout=3
         idx, cmd = args
         path = os.path.join(d, f'ops.{idx}.txt')
         with open(path) as f:
-            p = subprocess.run(cmd, stdin=f, stdout=subprocess.PIPE, stderr=subprocess.PIPE, timeout=timeout, text=True)
+            try:
+                p = subprocess.run(cmd, stdin=f, stdout=subprocess.PIPE, stderr=subprocess.PIPE, timeout=timeout, text=True, env=ENV)
+                out_text, rc_, err_ = p.stdout, p.returncode, p.stderr
+            except subprocess.TimeoutExpired as e:
+                out_text = (e.stdout or b'').decode() if isinstance(e.stdout, bytes) else (e.stdout or '')
+                rc_, err_ = -9, 'timeout'
+        class _P: pass
+        p = _P(); p.stdout = out_text; p.returncode = rc_; p.stderr = err_
         lines = p.stdout.split('\n')
         if lines and lines[-1] == '':
             lines.pop()
